@@ -1,6 +1,6 @@
 /-
 Definitions only (no Mathlib; the driver evaluates them): the scope records of a finished tree, the class of SIMPLE programs
-(no catch clause, no label, no named function expression), and the WALK FACTS: the decidable, purely book-keeping statement of
+(no label, no named function expression; catch clauses are allowed), and the WALK FACTS: the decidable, purely book-keeping statement of
 what the prewalk did on a program —
   * every function node has its own scope record, child of the record of the enclosing function (or of the global scope), whose
     `local_declared_symbols` are exactly the function's parameters and hoisted declarations, and which the look-up tables of
@@ -42,21 +42,37 @@ structure MCtx where
 
 def setEq (a b : List String) : Bool := a.all b.contains && b.all a.contains
 
-def headDecl (C : List Anc) : List String :=
-  match C with
-  | A :: _ => A.decl
-  | [] => []
-
 /-- a reference site: registered in the current scope, and a key of its `referenced_symbols` -/
 def refSite (fin : Final) (mc : MCtx) (q : Path) (n : String) : Bool :=
   lookupPath fin.identifiers q == some mc.sid && (ckeys (effRefs mc.chain)).contains n
 
-/-- a declaration site: registered in the current scope and locally declared there -/
+/-- the symbol is declared in the variable environment of the chain: the first function scope, no catch scope on the way
+binding the same symbol (`CatchScope.declare` forwards every other symbol to its parent) -/
+def varDeclOK : List Anc → String → Bool
+  | [], _ => false
+  | A :: C, n =>
+    match A.kind with
+    | .func => A.decl.contains n
+    | .catch sym _ => n != sym && varDeclOK C n
+
+/-- a declaration site: registered in the current scope and declared in its variable environment -/
 def declSite (fin : Final) (mc : MCtx) (q : Path) (n : String) : Bool :=
-  lookupPath fin.identifiers q == some mc.sid && (headDecl mc.chain).contains n
+  lookupPath fin.identifiers q == some mc.sid && varDeclOK mc.chain n
 
 def declSites (fin : Final) (mc : MCtx) (p : SPath) (a : String) (v : Val) : Bool :=
   (identsOf p a v).all (fun q => declSite fin mc q.1 q.2)
+
+def isCatchOf (A : Anc) (c : String) : Bool :=
+  match A.kind with
+  | .catch sym _ => sym == c
+  | .func => false
+
+/-- the parameter site of a catch clause: registered in the catch scope, and its catch symbol -/
+def catchSite (fin : Final) (mc : MCtx) (q : Path) (n : String) : Bool :=
+  lookupPath fin.identifiers q == some mc.sid &&
+    (match mc.chain with
+     | K :: _ => isCatchOf K n
+     | [] => false)
 
 def identSiteFacts (fin : Final) (mc : MCtx) (path : Path) (as : List (String × Val)) : Bool :=
   match Spec.Scope.lookupAttr as "identifier" with
@@ -65,34 +81,56 @@ def identSiteFacts (fin : Final) (mc : MCtx) (path : Path) (as : List (String ×
     | none => true
   | none => true
 
+def identAttrOf' (as : List (String × Val)) : Option String :=
+  (Spec.Scope.lookupAttr as "identifier").bind identName
+
+/-- the facts about the record (chain `K :: C`) of the catch clause at model path `path`, seen from the enclosing scope -/
+def catchFacts (fin : Final) (mc : MCtx) (path : Path) (c : String) (rid : Nat) (K : Anc) (C : List Anc) : Bool :=
+  decide (C = mc.chain) && isCatchOf K c
+    && decide (((tablesOfNode fin path.reverse).headD (true, [])).2 = K.remapped)
+    && decide (lookupChain fin.chains rid = some (entriesOf (K :: C)))
+    && decide (lookupPath fin.identifiers (("identifier", 0) :: path) = some rid)
+
+/-- the record of the catch clause at model path `path` -/
+def catchRec (fin : Final) (recs : List Rec) (mc : MCtx) (path : Path) (as : List (String × Val)) : Option MCtx :=
+  match identAttrOf' as with
+  | none => none
+  | some c =>
+    match recs.find? (fun r => r.node == some path) with
+    | none => none
+    | some R =>
+      match R.chain with
+      | [] => none
+      | K :: C => if catchFacts fin mc path c R.id K C then some { sid := R.id, chain := K :: C } else none
+
 mutual
-  /-- the sites `hoistVal` collects -/
-  def hoistFacts (fin : Final) (mc : MCtx) (path : Path) : Val → Bool
+  /-- the sites `hoistVal` collects; inside a catch block they are registered in the catch scope -/
+  def hoistFacts (fin : Final) (recs : List Rec) (mc : MCtx) (path : Path) : Val → Bool
     | .node k as =>
       if k == "FuncDecl" then identSiteFacts fin mc path as
       else if isFunctionKind k then true
-      else (if isVarDeclKind k then identSiteFacts fin mc path as else true) && hoistFactsAttrs fin mc path as
-    | .list xs => hoistFactsList fin mc path "" 0 xs
+      else if k == "Catch" then
+        (match catchRec fin recs mc path as with
+         | some mc' => hoistFactsAttrs fin recs mc' path as
+         | none => false)
+      else (if isVarDeclKind k then identSiteFacts fin mc path as else true) && hoistFactsAttrs fin recs mc path as
+    | .list xs => hoistFactsList fin recs mc path "" 0 xs
     | _ => true
-  def hoistFactsList (fin : Final) (mc : MCtx) (path : Path) (a : String) : Nat → List Val → Bool
+  def hoistFactsList (fin : Final) (recs : List Rec) (mc : MCtx) (path : Path) (a : String) : Nat → List Val → Bool
     | _, [] => true
-    | i, v :: rest => hoistFacts fin mc ((a, i) :: path) v && hoistFactsList fin mc path a (i + 1) rest
-  def hoistFactsAttrs (fin : Final) (mc : MCtx) (path : Path) : List (String × Val) → Bool
+    | i, v :: rest => hoistFacts fin recs mc ((a, i) :: path) v && hoistFactsList fin recs mc path a (i + 1) rest
+  def hoistFactsAttrs (fin : Final) (recs : List Rec) (mc : MCtx) (path : Path) : List (String × Val) → Bool
     | [] => true
+    | (a, .list xs) :: rest =>
+      (if Val.isMeta a then true else hoistFactsList fin recs mc path a 0 xs) && hoistFactsAttrs fin recs mc path rest
     | (a, v) :: rest =>
-      (if Val.isMeta a then true
-       else match v with
-         | .list xs => hoistFactsList fin mc path a 0 xs
-         | x => hoistFacts fin mc ((a, 0) :: path) x) && hoistFactsAttrs fin mc path rest
+      (if Val.isMeta a then true else hoistFacts fin recs mc ((a, 0) :: path) v) && hoistFactsAttrs fin recs mc path rest
 end
 
-def hoistFactsAttr (fin : Final) (mc : MCtx) (path : Path) (a : String) : Option Val → Bool
-  | some (.list xs) => hoistFactsList fin mc path a 0 xs
-  | some x => hoistFacts fin mc ((a, 0) :: path) x
+def hoistFactsAttr (fin : Final) (recs : List Rec) (mc : MCtx) (path : Path) (a : String) : Option Val → Bool
+  | some (.list xs) => hoistFactsList fin recs mc path a 0 xs
+  | some x => hoistFacts fin recs mc ((a, 0) :: path) x
   | none => true
-
-def identAttrOf' (as : List (String × Val)) : Option String :=
-  (Spec.Scope.lookupAttr as "identifier").bind identName
 
 def hoistElemsOf (as : List (String × Val)) : List String :=
   match Spec.Scope.lookupAttr as "elements" with
@@ -103,13 +141,13 @@ def paramsOf (kind : String) (as : List (String × Val)) : List String :=
   paramNames (if kind == "SetPropAssign" then Spec.Scope.lookupAttr as "parameter" else Spec.Scope.lookupAttr as "parameters")
 
 /-- the facts about the record `R` (chain `A :: C`) of the function node at `p`, seen from the enclosing scope `mc` -/
-def funcFacts (fin : Final) (mc : MCtx) (p : SPath) (kind : String) (as : List (String × Val)) (rid : Nat) (A : Anc)
+def funcFacts (fin : Final) (recs : List Rec) (mc : MCtx) (p : SPath) (kind : String) (as : List (String × Val)) (rid : Nat) (A : Anc)
     (C : List Anc) : Bool :=
   decide (C = mc.chain) && A.kind == .func
     && setEq (paramsOf kind as ++ hoistElemsOf as) A.decl
     && decide (((tablesOfNode fin p).headD (true, [])).2 = A.remapped)
     && decide (lookupChain fin.chains rid = some (entriesOf (A :: C)))
-    && hoistFactsAttr fin { sid := rid, chain := A :: C } p.reverse "elements" (Spec.Scope.lookupAttr as "elements")
+    && hoistFactsAttr fin recs { sid := rid, chain := A :: C } p.reverse "elements" (Spec.Scope.lookupAttr as "elements")
     && (match (if kind == "SetPropAssign" then Spec.Scope.lookupAttr as "parameter"
           else Spec.Scope.lookupAttr as "parameters") with
         | some v => declSites fin { sid := rid, chain := A :: C } p
@@ -126,7 +164,8 @@ def enterFacts (fin : Final) (recs : List Rec) (mc : MCtx) (p : SPath) (kind : S
     | some R =>
       match R.chain with
       | [] => none
-      | A :: C => if funcFacts fin mc p kind as R.id A C then some { sid := R.id, chain := A :: C } else none
+      | A :: C => if funcFacts fin recs mc p kind as R.id A C then some { sid := R.id, chain := A :: C } else none
+  else if kind == "Catch" then catchRec fin recs mc p.reverse as
   else some mc
 
 /-- the facts of one attribute, given those of the three possible recursive calls -/
@@ -137,7 +176,7 @@ def roleFacts (fin : Final) (outer inner : MCtx) (p : SPath) (a : String) (v : V
   | .funcDeclName => declSites fin outer p a v
   | .selfName => (identsOf p a v).isEmpty
   | .params => declSites fin inner p a v
-  | .catchParam => false
+  | .catchParam => (identsOf p a v).all (fun q => catchSite fin inner q.1 q.2)
   | .varName _ => declSites fin outer p a v
   | .labelDecl => false
   | .labelRef => (identsOf p a v).isEmpty
@@ -153,7 +192,7 @@ mutual
         | some n => refSite fin mc p.reverse n
         | none => true
       else
-        k != "Catch" && k != "Label" &&
+        k != "Label" &&
         (match enterFacts fin recs mc p k as with
          | some inner => factsAttrs fin recs mc inner p k (isPresent (Spec.Scope.lookupAttr as "initializer")) forIn as
          | none => false)
@@ -185,7 +224,7 @@ def factsProgram (fin : Final) (recs : List Rec) (program : Val) : Bool :=
       let mc : MCtx := { sid := R.id, chain := [A] }
       A.kind == .func && setEq (hoistVal program) A.decl && decide (rootTable fin = A.remapped)
         && decide (lookupChain fin.chains R.id = some (entriesOf [A]))
-        && hoistFacts fin mc [] program && factsVal fin recs mc false [] program
+        && hoistFacts fin recs mc [] program && factsVal fin recs mc false [] program
     | _ => false
 
 /-- run the model and evaluate the walk facts -/
